@@ -312,8 +312,10 @@ def _isinstance(v, t) -> bool:
         return isinstance(v, int) and not isinstance(v, bool) or isinstance(v, float) and t is NUMBER
     if t is NDARRAY:
         return isinstance(v, Arr)
-    if isinstance(t, Sym) and t.name == "np.generic":
+    if isinstance(t, Sym) and t.name in ("np.generic", "np.number"):
         return isinstance(v, Scalar)
+    if t is NP_BOOL:
+        return False
     if t is NP_INTEGER:
         return False
     if isinstance(t, type):
@@ -327,7 +329,7 @@ BUILTINS = {
     "len": len, "range": range, "enumerate": enumerate, "list": list, "tuple": tuple, "sum": sum, "int": int, "slice": slice, "zip": zip,
     "min": min, "max": max, "any": any, "all": all, "sorted": sorted, "reversed": reversed, "abs": abs, "bool": bool, "set": set, "dict": dict,
     "isinstance": _isinstance, "hasattr": lambda o, a: hasattr(o, a) if isinstance(o, (Arr, Obj, slice)) else False,
-    "Ellipsis": Ellipsis, "None": None, "True": True, "False": False,
+    "Ellipsis": Ellipsis, "None": None, "True": True, "False": False, "NotImplemented": NotImplemented,
     "tuple_type": tuple, "int_type": int, "slice_type": slice, "list_type": list,
 }
 TYPE_NAMES = {"tuple": tuple, "int": int, "slice": slice, "list": list, "bool": bool, "float": float, "str": str}
@@ -607,12 +609,37 @@ class Interp:
             raise Unsupported("truth value of an array")
         return bool(v)
 
-    def binop(self, op, a, b):
-        if isinstance(a, (Obj, Capture)) or isinstance(b, (Obj, Capture)):
+    DUNDER = {ast.Add: "add", ast.Sub: "sub", ast.Mult: "mul", ast.Div: "truediv", ast.MatMult: "matmul", ast.Pow: "pow", ast.FloorDiv: "floordiv", ast.Mod: "mod"}
+
+    def binop(self, op, a, b, depth: int = 0):
+        if isinstance(a, Obj) or isinstance(b, Obj):
+            name = self.DUNDER.get(type(op))
+            if name is None:
+                raise Unsupported("operator on an abstract object")
+            for recv, other, dn in ((a, b, f"__{name}__"), (b, a, f"__r{name}__")):
+                if isinstance(recv, Obj) and recv.__dict__.get("__cls__") is not None:
+                    m = self.prog.lookup(recv.__dict__["__cls__"], dn)
+                    if m is not None:
+                        r = self.call(m, [recv, other], depth=depth + 1)
+                        if r is not NotImplemented:
+                            return r
+            raise Raised("TypeError")
+        if isinstance(a, Capture) or isinstance(b, Capture):
             raise Unsupported("operator on an abstract object")
-        if isinstance(a, Arr) or isinstance(b, Arr):
-            if isinstance(op, (ast.Add, ast.Sub, ast.Mult)):
-                return Arr(max(as_array(a).ndim, as_array(b).ndim), "i")
+        if isinstance(a, (Arr, Scalar)) or isinstance(b, (Arr, Scalar)):
+            if isinstance(op, (ast.Add, ast.Sub, ast.Mult, ast.Div, ast.Pow, ast.FloorDiv, ast.Mod)):
+                if isinstance(a, (list, tuple)) or isinstance(b, (list, tuple)):
+                    pass  # numpy converts nested sequences
+                x, y = as_array(a), as_array(b)
+                nd = max(x.ndim, y.ndim)
+                # broadcasting aligns the axes from the right; an axis keeps the label of the operand that has one there
+                lab = []
+                for i in range(nd):
+                    lx = x.labels()[i - (nd - x.ndim)] if i >= nd - x.ndim else None
+                    ly = y.labels()[i - (nd - y.ndim)] if i >= nd - y.ndim else None
+                    lab.append(lx if lx is not None else (ly if ly is not None else "new"))
+                kind = "f" if isinstance(op, ast.Div) or "f" in (x.kind, y.kind) else x.kind
+                return Arr(nd, kind, tuple(lab)) if (x.prov is not None or y.prov is not None) else Arr(nd, kind)
             raise Unsupported("array arithmetic")
         try:
             if isinstance(op, ast.Add):
@@ -700,13 +727,18 @@ class Interp:
                     out.append(self.expr(x, env, fn, depth))
             return out
         if isinstance(e, ast.BinOp):
-            return self.binop(e.op, self.expr(e.left, env, fn, depth), self.expr(e.right, env, fn, depth))
+            return self.binop(e.op, self.expr(e.left, env, fn, depth), self.expr(e.right, env, fn, depth), depth)
         if isinstance(e, ast.UnaryOp):
             v = self.expr(e.operand, env, fn, depth)
             if isinstance(e.op, ast.Not):
                 return not self.truth(v)
             if isinstance(e.op, ast.USub):
-                return -v
+                if isinstance(v, Obj):
+                    m = self.prog.lookup(v.__dict__.get("__cls__"), "__neg__") if v.__dict__.get("__cls__") is not None else None
+                    if m is None:
+                        raise Raised("TypeError")
+                    return self.call(m, [v], depth=depth + 1)
+                return v if isinstance(v, Arr) else -v
             if isinstance(e.op, ast.UAdd):
                 return +v
             raise Unsupported("unary operator")
